@@ -126,6 +126,16 @@ class LazyLogging(SimpleCodemod, NameAndAncestorResolutionMixin):
             # Skip logging ints, etc. Eg: `logging.info(2+2)`
             return None
 
+        literals = self.string_literals(binop)
+        if any(
+            "%" in literal.raw_value  # would be taken for a format directive
+            or '"' in literal.raw_value  # the combined string is written with double quotes
+            or "\n" in literal.raw_value  # a triple-quoted literal that spans lines
+            for literal in literals
+        ) or len({literal.prefix for literal in literals}) > 1:
+            # The pieces cannot be pasted into one literal of the same meaning
+            return None
+
         format_strings, format_args, prefixes = self.process_concat(binop)
         if len(set(prefixes)) > 1:
             # TODO: handle more complex case of str concat with different prefixes, such as
@@ -163,6 +173,16 @@ class LazyLogging(SimpleCodemod, NameAndAncestorResolutionMixin):
             case cst.BinaryOperation(operator=cst.Add()):
                 return self.is_str_concat(node.left) and self.is_str_concat(node.right)
         return isinstance(node, cst.SimpleString)
+
+    def string_literals(self, node: cst.CSTNode) -> list[cst.SimpleString]:
+        match node:
+            case cst.BinaryOperation(operator=cst.Add()):
+                return self.string_literals(node.left) + self.string_literals(
+                    node.right
+                )
+            case cst.SimpleString():
+                return [node]
+        return []
 
     def process_concat(
         self,
